@@ -149,7 +149,7 @@ type Event struct {
 }
 
 type Fault struct {
-	Kind string `json:"kind"` // fetch | versions | versions-empty | source | finder-error
+	Kind string `json:"kind"` // fetch | fetch-hazard | versions | versions-empty | source | finder-error
 	N    int    `json:"n"`    // fire on the n-th call of that kind (1-based)
 }
 
@@ -235,6 +235,8 @@ func (h *Harness) FetchSourcePackage(ctx context.Context, sourceType string, u *
 	if h.fire("fetch") {
 		return sourcebundle.FetchSourcePackageResponse{}, fmt.Errorf("injected fetch failure for %s", key)
 	}
+	// a download that succeeds but delivers something the builder has to refuse afterwards
+	hazard := h.fire("fetch-hazard")
 	for _, p := range h.W.Remotes {
 		pa, err := sourceaddrs.ParseRemotePackage(p.Addr)
 		if err != nil {
@@ -243,6 +245,9 @@ func (h *Harness) FetchSourcePackage(ctx context.Context, sourceType string, u *
 		if pa.String() == key {
 			if err := fsx.Materialise(targetDir, p.Tree(), map[string]string{"T": targetDir}); err != nil {
 				return sourcebundle.FetchSourcePackageResponse{}, fmt.Errorf("harness: materialise: %v", err)
+			}
+			if hazard {
+				os.Symlink("/etc/passwd", filepath.Join(targetDir, "hazard-absolute-link"))
 			}
 			var resp sourcebundle.FetchSourcePackageResponse
 			if p.Meta != nil {
